@@ -64,6 +64,24 @@ TEXT.update({
         design_ref='6.20', level_note=LOOP_NOTE),
 })
 
+CONV_NOTE = ('Trusted: Verus/Z3/rustc; the assembler (E1-E5, N1, N3 and the token weave); assumed contracts on std (sort keeps length, extend/count, HashMap::get_mut, hash key models); '
+             'E5 accessors for the two lazy_static tables; format! output opaque. OUT OF REACH and trusted: serde_json parsing of the bytes and parse_layout_from_json (serde_json::Value) - the claim starts at the '
+             'fancy_keys AST; file I/O.')
+TEXT.update({
+    'C14': dict(
+        technique='deductive verification (Verus): panic-freedom of every function of fancy_layout_interpreting.rs and key_transforms.rs + convert ensures the mapper precondition + verified load-then-run client',
+        level_text=('Proof, unbounded, for the converter and the mapper: Verus proves for the real text of both files that no panic!, out-of-bounds index, arithmetic overflow or unwrap of None is reachable '
+                    '(all converter inputs; all layouts satisfying layout_ok, all mapper states satisfying the invariant, all events); convert ensures r is Ok ==> layout_ok(r); a verified client feeds the result '
+                    'of convert to the universal mapper client for every operation sequence. The JSON/serde front end is outside the reach of the verifier and is trusted, which the level note says.'),
+        design_ref='6.14', level_note=CONV_NOTE + ' ' + MAPPER_NOTE),
+    'C13': dict(
+        technique='deductive verification (Verus): MultiplyIter / AliasCombinationIterator against the mixed-radix enumeration spec; converter components on the real text',
+        level_text=('Proof of the combination enumeration only (clause "one mapping per combination of alias definitions"): MultiplyIter::new/next enumerate every tuple below the alias quantities exactly once, in '
+                    'little-endian counting order (rank strictly increasing, total = product of the quantities), AliasCombinationIterator maps it one to one; every index used by the converter is in range. '
+                    'NOT yet covered by a contract: the per-letter Shift rule, the US-QWERTY tables, output-side alias replacement, repeat-only entries, and the equivalence of spellings (parser, out of reach).'),
+        design_ref='6.13', level_note=CONV_NOTE),
+})
+
 NOT_APPLICABLE = {
     'C15': 'both sides are serde / serde_json (derive(Serialize), serde_json::Value, enum_utils FromStr): no contract within reach of Verus or Kani can express or decide it without assuming the behaviour of the libraries, i.e. the property (DESIGN 6.15)',
     'C16': 'keyboard_listing.rs is str splitting/searching iterators, /proc and /sys I/O and an external glob crate; Verus does not reason about str contents and Kani does not terminate on symbolic text (DESIGN 6.16)',
